@@ -324,6 +324,39 @@ def write_loop_rules(F, R, variant):
     w9 = exit_edge is not None and len(clear_calls) == 1 and body.edge_dominates(exit_edge, clear_calls[0][0])
     R.ob("W9.clear-after-all-written", fn, "clear", w9, "the buffer is cleared only after the loop exit pos >= count", where=b["span"])
 
+    if variant == "blocking":
+        # W10 (blocking sibling): the sink is flushed after the last byte and before the buffer is released; a flush error is returned
+        # (the pipe is not reachable from outside the sender, so nobody else can flush it; the async sibling flushes too)
+        fl = find_calls(body, "std::io::Write::flush", "io::Write::flush")
+        okf = len(fl) == 1 and exit_edge is not None and bool(clear_calls)
+        if okf:
+            fbb = fl[0][0]
+            okf = body.edge_dominates(exit_edge, fbb) and body.dominates(fbb, clear_calls[0][0])
+            for p_ in body.paths(exit_edge[1]):
+                if body.term(p_[-1]) == "return" and fbb not in p_:
+                    okf = False
+            ok_e, err_e, _pe = _result_edges(body, fbb, False)
+            # also through `?`: Try::branch(flush) -> Break edge
+            via_try = []
+            for sbb, st in body.switches():
+                cond = body.expr_of_operand(st["switch"])
+                if cond[0] == "discr":
+                    x = strip(cond[1])
+                    if x[0] == "call" and call_matches(x, "Try::branch") and strip(x[3][0])[0] == "call" and strip(x[3][0])[5] == fbb:
+                        tv = {int(v): tb for v, tb in st["targets"]}
+                        if 0 in tv and 1 in tv:
+                            via_try.append((sbb, tv[0], tv[1]))
+            if via_try:
+                sbb, cont_t, brk_t = via_try[0]
+                okf = okf and body.edge_dominates((sbb, cont_t), clear_calls[0][0]) and clear_calls[0][0] not in body.reachable_from(brk_t)
+            elif ok_e and err_e:
+                okf = okf and any(body.edge_dominates(e, clear_calls[0][0]) for e in ok_e) and \
+                    not any(clear_calls[0][0] in body.reachable_from(e[1]) for e in err_e)
+            else:
+                okf = False
+        R.ob("W10.flush", fn, "flush", okf,
+             "send completes only after the sink was flushed: every path from the loop exit to return passes Write::flush, its error is returned, "
+             "and clear() follows its success edge", where=b["span"])
     if variant == "async":
         # W10 flush: every path from loop exit to a Ready(Ok) return passes the Ready(Ok) edge of poll_flush, clear after it
         fl = find_calls(body, "AsyncWrite::poll_flush")
